@@ -350,7 +350,28 @@ fn ed_sk_to_curve_any(i: &Input) -> Outcome {
     eq("crypto_sign_ed25519_sk_to_curve25519", &want, &x)
 }
 
+/// A key pair derived from a password: secret key = crypto_pwhash(32 bytes, ..) whatever the config's hash_length /
+/// salt_length are, public key = base-point multiple.
+fn pwhash_derive_keypair(i: &Input) -> Outcome {
+    type StackKeyPair = dryoc::keypair::KeyPair<dryoc::types::StackByteArray<32>, dryoc::types::StackByteArray<32>>;
+    use dryoc::pwhash::{Config, PwHash};
+    use dryoc::types::Bytes;
+    let (pw, salt) = (i.get("pw").to_vec(), i.arr::<16>("salt"));
+    let hl = i.num("hash_length") as usize;
+    let cfg = Config::interactive().with_opslimit(1).with_memlimit(8192).with_hash_length(hl);
+    let want_sk = match so::pwhash(32, &pw, &salt, 1, 8192, 2) {
+        Some(v) => v,
+        None => return fail("libsodium crypto_pwhash succeeds", "error", "oracle"),
+    };
+    let kp: StackKeyPair = must_ok(PwHash::<Vec<u8>, Vec<u8>>::derive_keypair(&pw, salt.to_vec(), cfg), "derive_keypair")?;
+    eq("derive_keypair secret key", &want_sk, kp.secret_key.as_slice())?;
+    let mut sk32 = [0u8; 32];
+    sk32.copy_from_slice(&want_sk);
+    eq("derive_keypair public key", &so::scalarmult_base(&sk32), kp.public_key.as_slice())
+}
+
 pub const C13: Registry = &[
+    ("pwhash_derive_keypair", pwhash_derive_keypair),
     ("box_seed_keypair", box_seed_keypair),
     ("kx_seed_keypair", kx_seed_keypair),
     ("sign_seed_keypair", sign_seed_keypair),
@@ -360,6 +381,11 @@ pub const C13: Registry = &[
 
 pub fn c13(ctx: &mut Ctx) -> Search {
     let t = ctx.thorough;
+    for hl in [16u64, 32, 33, 64, 128] {
+        let pw = ctx.rng.bytes((hl % 7) as usize + 1);
+        let salt: [u8; 16] = ctx.rng.arr();
+        ctx.run("pwhash_derive_keypair", Input::new().b("pw", &pw).b("salt", &salt).u("hash_length", hl))?;
+    }
     let maxlen = if t { 128 } else { 64 };
     for len in 0..=maxlen {
         for class in 0..3 {
